@@ -476,6 +476,14 @@ impl State {
     }
 
     fn intern_source(&mut self, buf: Xstr, path: Option<Xstr>) -> Xresult {
+        // a token finds its source by the identity of the buffer it points into: a text object
+        // that is submitted again gets a buffer of its own, otherwise what fails in the second
+        // submission would be reported under the name of the first
+        let buf = if self.sources.iter().any(|(_, b)| Xstr::ptr_eq(b, &buf)) {
+            Xstr::from(buf.as_str())
+        } else {
+            buf
+        };
         let id = self.sources.len();
         let lex = Lex::new(buf.clone());
         let name = if let Some(name) = path {
